@@ -31,7 +31,9 @@ type eqKind struct {
 	nparams int
 }
 
-var eqPool = [][]byte{[]byte("a"), []byte("b"), []byte("c"), []byte("dd"), []byte("eee"), []byte("0123456789abcdefg"), []byte("x1"), []byte("y2"), []byte("z3"), []byte("q")}
+var eqPool = [][]byte{[]byte("a"), []byte("b"), []byte("c"), []byte("dd"), []byte("eee"), []byte("0123456789abcdefg"), []byte("x1"), []byte("y2"), []byte("z3"), []byte("q"),
+	// names that escaping schemes treat specially (valid UTF-8: invalid names are finding D23)
+	[]byte("c++"), []byte("1+1=2%41"), []byte("a/b\\c\"q\""), []byte("caf\xc3\xa9")}
 
 func init() { register("equals", suiteEquals) }
 
@@ -432,6 +434,41 @@ func suiteEquals(c *Ctx) {
 	}
 	equalsCuckooHoles(c, false)
 	equalsCuckooHoles(c, true)
+	for r := 0; r < c.scale(6, 40); r++ {
+		for _, redis := range []bool{false, true} {
+			equalsBuiltByMerge(c, eqHLL(redis))
+			equalsBuiltByMerge(c, eqCMS(redis))
+		}
+	}
+}
+
+// equalsBuiltByMerge: the same content reached by updates alone and by query - merge - query:
+// Equals must say true and every query must then be answered identically (an estimate cached
+// before the merge must not survive it).
+func equalsBuiltByMerge(c *Ctx, k eqKind) {
+	h1, h2 := append(randHist(c), 1, 2), append(randHist(c), 3, 4, 5)
+	a, b, twin := k.build(c, 0), k.build(c, 0), k.build(c, 0)
+	if a == nil || b == nil || twin == nil {
+		return
+	}
+	k.feed(c, a, h1)
+	jsonQueries(k.name, a) // asked before the merge
+	k.feed(c, b, h2)
+	var merr error
+	switch x := a.(type) {
+	case hllHandle:
+		merr = x.Merge(b.(hllHandle))
+	case cmsHandle:
+		merr = x.Merge(b.(cmsHandle))
+	default:
+		return
+	}
+	if merr != nil {
+		return
+	}
+	k.feed(c, twin, h1)
+	k.feed(c, twin, h2)
+	eqCheck(c, k, a, twin, "built-by-merge", append(append([]int(nil), h1...), h2...))
 }
 
 func randHist(c *Ctx) []int {
@@ -472,6 +509,21 @@ func equalsKind(c *Ctx, k eqKind) {
 	if err == nil {
 		if cp, err := k.imp(c, doc); err == nil && cp != nil {
 			check("imported-copy", cp)
+			// Equals true => identical answers, now and under the same further operations: the same
+			// updates on the original and on the copy (which share nothing) leave them equal
+			more := append(randHist(c), 10, 11, 12)
+			qa0 := jsonQueries(k.name, a)
+			k.feed(c, cp, more)
+			if jsonQueries(k.name, a) != qa0 {
+				c.fail([]string{"C17", "C10"}, k.name+"-equal-structures-share-state", fmt.Sprintf("%s: updating an imported copy changed the answers of the structure it was exported from", k.name), map[string]interface{}{"kind": k.name, "history": hist, "more": more})
+			}
+			check("copy-moved-on", cp)
+			k.feed(c, a, more)
+			check("same-ops-on-both", cp)
+			if qa, qb := jsonQueries(k.name, a), jsonQueries(k.name, cp); qa != qb {
+				c.fail([]string{"C17"}, k.name+"-equal-but-answers-differ", fmt.Sprintf("%s: two structures with the same history of operations answer differently: %.150s vs %.150s", k.name, qa, qb), map[string]interface{}{"kind": k.name, "history": hist, "more": more})
+			}
+			hist = append(append([]int(nil), hist...), more...)
 		}
 		for where, wname := range []string{"first", "middle", "last"} {
 			var m map[string]interface{}
@@ -541,6 +593,12 @@ func eqCheck(c *Ctx, k eqKind, a, b interface{}, rel string, hist []int) {
 	}
 	if ab != want {
 		c.fail([]string{"C17"}, k.name+"-equals-wrong", fmt.Sprintf("%s (%s): Equals=%v (err %v/%v) but parameters+payload identical=%v", k.name, rel, ab, eab, eba, want), replay)
+	}
+	if ab && want {
+		// Equals true: every query must be answered identically (whatever either side has cached)
+		if qa, qb := jsonQueries(k.name, a), jsonQueries(k.name, b); qa != qb {
+			c.fail([]string{"C17"}, k.name+"-equal-but-answers-differ", fmt.Sprintf("%s (%s): Equals=true but the queries are answered differently: %.150s vs %.150s", k.name, rel, qa, qb), replay)
+		}
 	}
 	if ab && (eab != nil) {
 		c.fail([]string{"C17"}, k.name+"-equals-true-with-error", fmt.Sprintf("%s (%s): Equals true with error %v", k.name, rel, eab), replay)
